@@ -692,6 +692,14 @@ theorem pcAfter_replay (env : Env) (n : Node) (r r' : Resolver) (pc pc' : Addres
     · cases h
     · simp only [Except.ok.injEq, Prod.mk.injEq] at h
       obtain ⟨h1, _⟩ := h; subst h1; exact still (m := .symbol name e) rfl (Still.of_same (addSymbol_same r name _))
+  | argSymbol name e =>
+    simp only [pcAfter] at h
+    split at h
+    · cases h
+    · split at h
+      · cases h
+      · simp only [Except.ok.injEq, Prod.mk.injEq] at h
+        obtain ⟨h1, _⟩ := h; subst h1; exact still (m := .argSymbol name e) rfl (Still.of_same (addSymbol_same r name _))
   | symbolConst name v =>
     simp only [pcAfter, Except.ok.injEq, Prod.mk.injEq] at h
     obtain ⟨h1, _⟩ := h; subst h1; exact still (m := .symbolConst name v) rfl (Still.of_same (addSymbol_same r name v))
@@ -842,6 +850,9 @@ theorem emitNode_replay (env : Env) (n : Node) (r r' : Resolver) (bs : List Nat)
   | symbol name e =>
     simp only [emitNode, Except.ok.injEq, Prod.mk.injEq] at h
     obtain ⟨h1, _⟩ := h; subst h1; exact still (m := .symbol name e) rfl (Still.refl _)
+  | argSymbol name e =>
+    simp only [emitNode, Except.ok.injEq, Prod.mk.injEq] at h
+    obtain ⟨h1, _⟩ := h; subst h1; exact still (m := .argSymbol name e) rfl (Still.refl _)
   | symbolConst name v =>
     simp only [emitNode, Except.ok.injEq, Prod.mk.injEq] at h
     obtain ⟨h1, _⟩ := h; subst h1; exact still (m := .symbolConst name v) rfl (Still.refl _)
